@@ -26,6 +26,9 @@ var (
 	record atomic.Bool
 )
 
+// applied counts the holds that fired since the last SetPlan.
+var applied atomic.Int64
+
 func init() {
 	if s := os.Getenv("VSCHED_PLAN"); s != "" {
 		var p []Hold
@@ -41,6 +44,7 @@ func SetPlan(p []Hold) {
 	defer mu.Unlock()
 	plan = p
 	counts = map[string]int{}
+	applied.Store(0)
 	active.Store(len(p) > 0 || record.Load())
 }
 
@@ -87,6 +91,10 @@ func Point(id string) {
 	}
 	mu.Unlock()
 	if d > 0 {
+		applied.Add(1)
 		time.Sleep(d)
 	}
 }
+
+// Applied tells how many holds of the current plan have fired since SetPlan.
+func Applied() int { return int(applied.Load()) }
